@@ -1664,8 +1664,15 @@ class Interp(object):
             key = self._objkey_find(o, k)
             o[k if key is None else key] = val
             return
-        if isinstance(o, dict) and is_sym(k):
-            raise Unsupported("symbolic dict key")
+        if isinstance(o, dict) and (_symbolic_key(k) or any(_symbolic_key(x) for x in list(o.keys())[:64])):
+            # a key whose equality is symbolic: an existing equal key is overwritten (Python semantics), decided
+            # by case split; the proxies' identity hashing must not create a second entry for an equal key
+            for key in list(o.keys()):
+                if key is k or self.truth(self.compare(ast.Eq, k, key)):
+                    o[key] = val
+                    return
+            o[k] = val
+            return
         if isinstance(o, list) and isinstance(k, SymInt):
             # store at a symbolic position: decided by case split over the concrete positions
             n = len(o)
